@@ -276,13 +276,20 @@ structure ServeFacts where
   /-- an off-reader handler's response is handed to the writer with a send that WAITS for room in the outbound queue
   (`blocking_send`), not one that gives up when the queue is full -/
   wsOffSendWaits : Bool
+  /-- `spawn_off_reader`, saturated cap: after queueing the ResourceExhausted answer (or dropping a notify) the
+  function RETURNS; it never reaches `spawn_blocking` without a permit -/
+  wsSaturationReturns : Bool
+  /-- `dispatch_struct_segments`: every `/`-separated segment reaches the handler, also the one that makes the
+  16-entry stack buffer spill to the heap -/
+  structSegmentsKept : Bool
   deriving DecidableEq, Repr
 
 def specServe : ServeFacts :=
   { viewNotifySilent := true, ownedNotifySilent := true, viewRejectNotifySilent := true, wsRejectNotifySilent := true
     viewHandlerCalls := 1, ownedHandlerCalls := 1, tcpEchoHelper := true, atcpEchoHelper := true
     wsStampInline := true, wsStampOff := true, wsOffRunsAlways := true, tcpFlushEach := true, atcpFlushEach := true
-    wsSendInOrder := true, wsDrainOnExit := true, wsOffSendWaits := true }
+    wsSendInOrder := true, wsDrainOnExit := true, wsOffSendWaits := true,
+    wsSaturationReturns := true, structSegmentsKept := true }
 
 /-- `finalMessage` with the echo / stamp facts: a writer that is not handed the echo helper's result frames the
 request query over whatever the handler chose; a missing stamp leaves the response query-less. -/
@@ -344,6 +351,16 @@ def teardownDelivered (sf : ServeFacts) (queued : List Message) : List Message :
 delivers it once there is room; a non-waiting one loses it. -/
 def offReaderHandoff (sf : ServeFacts) (queueFull : Bool) (resp : Message) : Option Message :=
   if queueFull && !sf.wsOffSendWaits then none else some resp
+
+/-- A non-notify off-reader request that arrives while the per-connection cap is saturated:
+(responses carrying its id, handler invocations). -/
+def saturatedOutcome (sf : ServeFacts) : Nat × Nat :=
+  if sf.wsSaturationReturns then (1, 0) else (2, 1)
+
+/-- Segments a struct mount's handler is given for an escape-free pointer with segments `segs`
+(`STACK_SEGS` = 16: the 17th segment is the one that triggers the spill). -/
+def structSegmentsSeen (sf : ServeFacts) (segs : List String) : List String :=
+  if sf.structSegmentsKept || segs.length ≤ 16 then segs else segs.take 16 ++ segs.drop 17
 
 /-- A request to a built-in handler of kind `k`, end to end. -/
 def builtinRespond (sf : ServeFacts) (c : Codes) (df : HKind → Entry → DecodeFacts) (ef : EntryFacts) (t : Transport)
